@@ -114,6 +114,13 @@ def frameSst : List Bytes → Bytes
   | [] => []
   | f :: fs => frameRec 0xFC f fs
 
+/-! ### strings that live inside one record -/
+
+/-- bytes of an XLUnicodeString (BIFF8): cch, flags, characters -/
+def xlUnicodeString (wide : Bool) (us : List Nat) : Bytes := le16 us.length ++ (flagByte wide :: encUnits wide us)
+/-- bytes of a ShortXLUnicodeString (BIFF8): cch (1 byte), flags, characters -/
+def shortXlUnicodeString (wide : Bool) (us : List Nat) : Bytes := byte us.length :: flagByte wide :: encUnits wide us
+
 /-! ### text ↔ UTF-16 code units -/
 
 /-- Unicode scalar value -/
